@@ -114,29 +114,36 @@ def find_state(current_state_machine, current_state, force_full_lookup=False):
     if state == None or force_full_lookup:
         """
         If the state can't be found in the parent state machine search for
-        it more deeply using recursive descent, as the specified state might
-        actually be in a Parallel branch or Map Iterator state machine.
-        Because JSONPath doesn't have a parent operator and we want to get
-        the parent States object too we get the full JSONPath string for
-        the query then use simple string splits to find the path of that.
+        it more deeply, as the specified state might actually be in a Parallel
+        branch or Map Iterator state machine. The States objects of the nested
+        state machines are walked with plain look-ups: the state name is
+        arbitrary text, so it can't be pasted into a JSONPath expression
+        (names containing . [ ; * or only digits would not be found).
         """
-        path = get_full_jsonpath(current_state_machine, "$.." + current_state)
-        if path:
-            # Only members of a "States" object (or of the top level) are states.
-            suffix = "['" + current_state + "']"
-            path = [p for p in path if p == "$" + suffix or
-                    p.endswith("['States']" + suffix)]
-        if path:
-            states_path = path[0].rpartition("['States']")[0]
-            if states_path:
-                branch = apply_jsonpath(current_state_machine, states_path)
-                current_state_machine = branch["States"]
-                state = current_state_machine.get(current_state)
-        else:
-            path = []
+        def states_objects(states):
+            yield states
+            for nested_state in states.values():
+                if not isinstance(nested_state, dict):
+                    continue
+                machines = nested_state.get("Branches", [])
+                machines = list(machines) if isinstance(machines, list) else []
+                machines.append(nested_state.get("Iterator"))
+                machines.append(nested_state.get("ItemProcessor"))
+                for machine in machines:
+                    if isinstance(machine, dict) and isinstance(machine.get("States"), dict):
+                        yield from states_objects(machine["States"])
+
+        found = [
+            states for states in states_objects(current_state_machine)
+            if current_state in states
+        ]
+        # One entry per match (callers use the number of matches).
+        path = ["['States']['" + str(current_state) + "']"] * len(found)
+        if found:
+            current_state_machine = found[0]
+            state = current_state_machine.get(current_state)
     else:
         path = ["$['" + current_state + "']"]
-
     return state, current_state_machine, path
 
 def merge_result(data, context, result, state, output_path=None):
